@@ -26,6 +26,10 @@ import (
 	"verifharness/drv"
 )
 
+// config decoding is a start-up API of pandora (one goroutine, lazily compiled hook table): the workers of this driver
+// take turns
+var setupMu sync.Mutex
+
 var kinds = []string{"uri", "uripost", "raw", "httpjson", "httpscen", "grpcscen", "grpcjson"}
 
 // ---------------------------------------------------------------- mode=alias
@@ -59,7 +63,9 @@ func runAlias(kv map[string]string) string {
 	}
 	defer t.stop()
 	y := poolYAML(kind, addr, kv, 2, map[string]any{"type": "once", "times": 1})
+	setupMu.Lock()
 	m, err := c20lib.NewManual(y, 2)
+	setupMu.Unlock()
 	if err != nil {
 		return "setup=" + c20lib.Enc(c20lib.Trunc(err.Error(), 200))
 	}
@@ -124,6 +130,7 @@ type probe struct {
 	mu       sync.Mutex
 	created  int
 	objs     map[uintptr]bool
+	keep     []core.Gun // every gun stays reachable until the case ends: an address is never reused for another gun
 	maxOver  int32
 	maxGoros int
 }
@@ -193,7 +200,9 @@ func runGuns(kv map[string]string) string {
 	}
 	defer t.stop()
 	y := poolYAML(kind, addr, kv, n, map[string]any{"type": "once", "times": 40 * n})
+	setupMu.Lock()
 	conf, err := c20lib.DecodePool(y)
+	setupMu.Unlock()
 	if err != nil {
 		return "setup=" + c20lib.Enc(c20lib.Trunc(err.Error(), 200))
 	}
@@ -207,6 +216,7 @@ func runGuns(kv map[string]string) string {
 		p.mu.Lock()
 		p.created++
 		p.objs[identity(g)] = true
+		p.keep = append(p.keep, g)
 		p.mu.Unlock()
 		return &probeGun{p: p, inner: g, goros: map[string]bool{}}, nil
 	}
@@ -249,7 +259,15 @@ func childMain() bool {
 	if in == "" {
 		return false
 	}
-	fmt.Println("OBS " + runRaceInProc(drv.KV(in)))
+	kv := drv.KV(in)
+	switch kv["mode"] {
+	case "hammer":
+		fmt.Println("OBS " + runHammerInProc(kv))
+	case "race":
+		fmt.Println("OBS " + runRaceInProc(kv))
+	default:
+		fmt.Println("OBS " + runLocal(kv))
+	}
 	return true
 }
 
@@ -311,26 +329,30 @@ func parseRaces(text string) []string {
 	}
 	out := make([]string, 0, len(seen))
 	for s := range seen {
-		out = append(out, c20lib.Enc(s))
+		out = append(out, siteEnc(s))
 	}
 	sort.Strings(out)
 	return out
 }
 
-func runRace(input string) string {
+// runChild runs one case in a child process with the race-detector log redirected to a file (never halting, exit
+// code unaffected). Returns the child's observation, the first fatal runtime error, the race report sites, and a
+// non-empty `bad` when the child could not be run at all.
+func runChild(input string) (obs, fatal, races, detector, bad string) {
 	dir, err := os.MkdirTemp("", "c11race")
 	if err != nil {
-		return "ENV " + err.Error()
+		return "", "", "", "", "ENV " + err.Error()
 	}
 	defer os.RemoveAll(dir)
-	cmd := exec.Command(os.Args[0])
+	bin, detector := childBinary()
+	cmd := exec.Command(bin)
 	cmd.Env = append(os.Environ(), childEnv+"="+input, "GORACE=log_path="+filepath.Join(dir, "race")+" halt_on_error=0 exitcode=0 history_size=3")
 	var out bytes.Buffer
 	cmd.Stdout = &out
 	cmd.Stderr = &out
 	done := make(chan error, 1)
 	if err := cmd.Start(); err != nil {
-		return "ENV " + err.Error()
+		return "", "", "", detector, "ENV " + err.Error()
 	}
 	go func() { done <- cmd.Wait() }()
 	select {
@@ -338,7 +360,7 @@ func runRace(input string) string {
 	case <-time.After(120 * time.Second):
 		_ = cmd.Process.Kill()
 		<-done
-		return "HANG"
+		return "", "", "", detector, "HANG"
 	}
 	text := out.String()
 	var raceText strings.Builder
@@ -347,31 +369,101 @@ func runRace(input string) string {
 		b, _ := os.ReadFile(f)
 		raceText.Write(b)
 	}
-	races := parseRaces(raceText.String() + text)
-	obs := ""
+	races = strings.Join(parseRaces(raceText.String()+text), ",")
 	for _, l := range strings.Split(text, "\n") {
 		if strings.HasPrefix(l, "OBS ") {
 			obs = strings.TrimPrefix(l, "OBS ")
 		}
 	}
-	fatal := "-"
-	if i := strings.Index(text, "fatal error:"); i >= 0 {
-		fatal = c20lib.Enc(c20lib.Trunc(strings.TrimSpace(strings.SplitN(text[i+len("fatal error:"):], "\n", 2)[0]), 80))
+	fatal = "-"
+	// a fatal runtime error (concurrent map access …) or an unrecovered panic (e.g. index out of range inside a
+	// random source used by two goroutines) kills the child
+	for _, mark := range []string{"fatal error:", "\npanic:"} {
+		if i := strings.Index("\n"+text, mark); i >= 0 && fatal == "-" {
+			fatal = c20lib.Enc(c20lib.Trunc(strings.TrimSpace(strings.SplitN(("\n" + text)[i+len(mark):], "\n", 2)[0]), 80))
+		}
 	}
 	if obs == "" && fatal == "-" {
-		return "CHILD-FAILED " + c20lib.Enc(c20lib.Trunc(text, 200))
+		return "", fatal, races, detector, "CHILD-FAILED " + c20lib.Enc(c20lib.Trunc(text, 200))
 	}
 	if obs == "" {
 		obs = "run=died"
 	}
-	return fmt.Sprintf("%s fatal=%s detector=%s races=%s", obs, fatal, raceEnabledText(), orDash(strings.Join(races, ",")))
+	return obs, fatal, races, detector, ""
 }
 
-func raceEnabledText() string {
-	if raceEnabled {
-		return "on"
+// runRace: modes whose subject is concurrency (race, hammer): always in a child.
+// siteEnc keeps a race site readable but a single token without the list separators of the line protocol
+func siteEnc(s string) string {
+	return strings.Map(func(r rune) rune {
+		switch r {
+		case ' ', '\t', ',', ';', '=':
+			return '_'
+		}
+		return r
+	}, s)
+}
+
+func runRace(input string) string {
+	obs, fatal, races, detector, bad := runChild(input)
+	if bad != "" {
+		return bad
 	}
-	return "off"
+	return fmt.Sprintf("%s fatal=%s detector=%s races=%s", obs, fatal, detector, orDash(races))
+}
+
+// runDeterministic: alias and guns. mode=alias is one goroutine: the plain build runs it in this process. mode=guns
+// runs the real engine with n instances: always in a child (the -race sibling when there is one, see childBinary), so
+// that a race report becomes part of the observation — and of the replay — instead of the exit code of the driver.
+// The -race build runs every case in a child: its own process stays free of pandora code. Without a report the
+// observation is the same in all builds.
+func runDeterministic(input string, kv map[string]string) string {
+	if !raceEnabled && kv["mode"] != "guns" {
+		return runLocal(kv)
+	}
+	obs, fatal, races, _, bad := runChild(input)
+	if bad != "" {
+		return bad
+	}
+	if fatal != "-" {
+		obs += " fatal=" + fatal
+	}
+	if races != "" {
+		obs += " races=" + races
+	}
+	return obs
+}
+
+func runLocal(kv map[string]string) string {
+	switch kv["mode"] {
+	case "alias":
+		return runAlias(kv)
+	case "guns":
+		return runGuns(kv)
+	}
+	return "ENV unknown mode"
+}
+
+// childBinary: the process that runs the concurrent part. The -race build of this driver runs itself; the plain
+// build uses its -race sibling (`check` builds `drive-C11-race<tag>` next to `drive-C11<tag>` before any case runs,
+// also for --replay) and falls back to itself (detector=off: only fatal runtime errors are visible).
+func childBinary() (string, string) {
+	if raceEnabled {
+		return os.Args[0], "on"
+	}
+	self, err := os.Executable()
+	if err != nil {
+		self = os.Args[0]
+	}
+	dir, base := filepath.Split(self)
+	const stem = "drive-C11"
+	if strings.HasPrefix(base, stem) && !strings.HasPrefix(base, stem+"-race") {
+		sib := filepath.Join(dir, stem+"-race"+strings.TrimPrefix(base, stem))
+		if st, err := os.Stat(sib); err == nil && !st.IsDir() {
+			return sib, "on"
+		}
+	}
+	return self, "off"
 }
 
 // ---------------------------------------------------------------- dispatch, generation
@@ -379,18 +471,29 @@ func raceEnabledText() string {
 func run(input string) string {
 	kv := drv.KV(input)
 	switch kv["mode"] {
-	case "alias":
-		return runAlias(kv)
-	case "guns":
-		return runGuns(kv)
-	case "race":
+	case "alias", "guns":
+		return runDeterministic(input, kv)
+	case "race", "hammer":
 		return runRace(input)
+	case "locks":
+		// nothing is executed: the observation judged for this case is the lock-facts table that `gen -area locks`
+		// re-extracted from the source of this tree and that is compiled into the model driver
+		return "static"
 	}
 	return "ENV unknown mode"
 }
 
 func class(input, obs string) string {
 	kv := drv.KV(input)
+	if kv["mode"] == "locks" {
+		return "locks"
+	}
+	if kv["mode"] == "hammer" {
+		if !strings.HasPrefix(obs, "run=-") {
+			return ""
+		}
+		return "hammer/" + kv["obj"]
+	}
 	if strings.HasPrefix(obs, "ENV") || !strings.Contains(obs, "served=yes") {
 		return ""
 	}
@@ -405,7 +508,7 @@ func class(input, obs string) string {
 }
 
 func gen(r *rand.Rand, tier string) []string {
-	var out []string
+	out := []string{"mode=locks"}
 	for _, k := range kinds {
 		out = append(out, "mode=alias kind="+k)
 		switch k {
@@ -422,9 +525,17 @@ func gen(r *rand.Rand, tier string) []string {
 			out = append(out, fmt.Sprintf("mode=guns kind=%s n=%d", k, n))
 		}
 	}
+	for _, o := range hammerObjs {
+		out = append(out, fmt.Sprintf("mode=hammer obj=%s n=8 calls=%d", o, 1500+r.Intn(1000)))
+	}
 	reps := 1
 	if tier == "thorough" {
 		reps = 4
+		for i := 0; i < 3; i++ {
+			for _, o := range hammerObjs {
+				out = append(out, fmt.Sprintf("mode=hammer obj=%s n=%d calls=%d", o, 2+r.Intn(15), 1000+r.Intn(4000)))
+			}
+		}
 		for _, k := range kinds {
 			for i := 0; i < 6; i++ {
 				out = append(out, fmt.Sprintf("mode=guns kind=%s n=%d", k, 1+r.Intn(12)))
